@@ -225,6 +225,19 @@ def scripts(tier, seed, scale=1):
                         lines += ["c await 20", "c send 7a", "c sync %s55,%s56" % (mkr(w, 1), mkr(w, n + 1)) if mode != " dgram" else "c req %s55 ret:0" % mkr(w, 1),
                                   "c await 21", "c send 7b", "c req %s05 reply:41" % gen.hexs([0] * (w - 1) + [3]), "c close"]
                         out.append(("cs:%s/%d/%d/%s/%s%s" % (mode.strip() or "plain", w, n, "".join(map(str, order)), via, "F" if base > 10 else ""), lines))
+    # the connection gets a new target (mpt_connection_assign -> close) while deferred handles are outstanding and commands
+    # wait: the handles are detached, nothing of them may reach the new peer
+    for mode in ("", " dgram", " remote", " rdgram"):
+        for w in (1, 2):
+            idh = gen.hexs([0] * (w - 1) + [7])
+            for late in (["c dreply 0 6c617465"], ["c dreply 0 none"], ["c dreply 1 41", "c dreply 0 none"], ["c dreply 0 -", "c dreply 1 none"]):
+                for wait in (0, 2):
+                    lines = ["c open %d%s" % (w, mode), "c req %s7a defer" % idh, "c req %s7b reply:41" % idh, "c req %s7c defer,ret:-4" % idh]
+                    for k in range(wait):
+                        lines += ["c await %d" % (10 + k), "c send %02x" % (0x61 + k)]
+                    lines += ["c reassign"] + late + ["c req %s7d reply:42" % idh, "c reassign", "c close", "c open %d%s" % (w, mode), "c req %s7e defer" % idh,
+                                                     "c dreply 2 43", "c close"]
+                    out.append(("cra:%s/%d/%d/%s" % (mode.strip() or "plain", w, wait, "+".join(x.split()[-1][:4] for x in late)), lines))
     # a datagram that is no reply while 1..9 commands wait (the output's sync reports how many)
     for w in (1, 2):
         for n in (1, 2, 3, 5, 9):
